@@ -8,7 +8,10 @@ Line-protocol driver for the keeper-level C01 stream (`settleapp`, stateful; one
 * `settle asks=<id>|… bids=<id>|… partial=<0|1>`             → `ok` | `err:<class>` | `panic:<class>`
 * `fillbids <seller> ids=<id>|… assets=<coins> fee=<coins|->`→ …
 * `fillasks <buyer> ids=<id>|… price=<coin> fees=<coins|->`  → …
-* `dump` → `<acct>=<coins>;…;MKT=…;FEE=… | <order>|<order>…`
+* `dump` → `<acct>=<coins>;…;MKT=…;FEE=… | <order>|<order>… | <acct>=<coins on hold>;…`
+
+`settle` / `fillbids` / `fillasks` go through the request's `ValidateBasic` and then the msg server,
+as `runTx` does; their id lists may be empty, contain 0, or name an order more than once.
 
 The verdict is attached to `dump` lines: the C01 conclusion (`acceptedViolation` / `rejectedViolation`)
 evaluated on the implementation's dump before and after the preceding message.
@@ -49,17 +52,21 @@ def parseRatioOpt (s : String) : Option (Option Ratio) :=
 def showDump (accts : List Addr) (k : KState) : String :=
   let bal := fun (a : Addr) => s!"{a}={showC (Ledger.balances k.ledger a)}"
   let os := if k.orders.isEmpty then "-" else "|".intercalate (k.orders.map showOrder)
-  ";".intercalate ((accts ++ [marketName, collectorName]).map bal) ++ " | " ++ os
+  let hold := fun (a : Addr) => s!"{a}={showC (k.holdsOf a)}"
+  ";".intercalate ((accts ++ [marketName, collectorName]).map bal) ++ " | " ++ os ++ " | " ++
+    ";".intercalate (accts.map hold)
 
 def parseDump? (s : String) : Option Dump :=
+  let acctCoins := fun (b : String) => (b.splitOn ";").mapM fun p =>
+    match p.splitOn "=" with
+    | [a, cs] => (parseCoins? cs).map fun c => (a, c)
+    | _ => none
   match s.splitOn " | " with
-  | [b, o] => do
-    let bals ← (b.splitOn ";").mapM fun p =>
-      match p.splitOn "=" with
-      | [a, cs] => (parseCoins? cs).map fun c => (a, c)
-      | _ => none
+  | [b, o, h] => do
+    let bals ← acctCoins b
     let orders ← (splitList o).mapM parseOrder?
-    pure ⟨bals, orders⟩
+    let holds ← acctCoins h
+    pure ⟨bals, orders, holds⟩
   | _ => none
 
 def mkOrder (isAsk : Bool) (id : Nat) (ws : List String) : Option Order :=
@@ -107,19 +114,19 @@ def appRun (st : AppSt) (ws : List String) : AppSt × String :=
   | "settle" :: rest =>
     match (kv rest "asks").bind parseIds, (kv rest "bids").bind parseIds, kv rest "partial" with
     | some a, some b, some p =>
-      let r := st.k.settleOrders marketName collectorName a b (p = "1")
+      let r := st.k.msgMarketSettle marketName collectorName a b (p = "1")
       (match r with | .ok k' => { st with k := k' } | .error _ => st, showK r)
     | _, _, _ => (st, "bad-op")
   | "fillbids" :: seller :: rest =>
     match (kv rest "ids").bind parseIds, (kv rest "assets").bind parseCoins?, (kv rest "fee").bind parseCoins? with
     | some ids, some assets, some fee =>
-      let r := st.k.fillBids marketName collectorName seller ids assets fee
+      let r := st.k.msgFillBids marketName collectorName seller ids assets fee
       (match r with | .ok k' => { st with k := k' } | .error _ => st, showK r)
     | _, _, _ => (st, "bad-op")
   | "fillasks" :: buyer :: rest =>
     match (kv rest "ids").bind parseIds, (kv rest "price").bind parseCoin?, (kv rest "fees").bind parseCoins? with
     | some ids, some price, some fees =>
-      let r := st.k.fillAsks marketName collectorName buyer ids price fees
+      let r := st.k.msgFillAsks marketName collectorName buyer ids price fees
       (match r with | .ok k' => { st with k := k' } | .error _ => st, showK r)
     | _, _, _ => (st, "bad-op")
   | ["dump"] => (st, showDump st.accts st.k)
